@@ -56,6 +56,7 @@ func TestC01(t *testing.T) {
 		w := NewWorld(t, cfg, st)
 		defer w.Teardown()
 		scans, ntScans := 0, 0
+		scanRate := []int{0, 0, 1, 2, 7}[rapid.IntRange(0, 4).Draw(t, "scanrefreshrate")]
 		acts := w.seqActions()
 		acts["put2"] = acts["put"]
 		acts["put3"] = acts["put"]
@@ -76,7 +77,7 @@ func TestC01(t *testing.T) {
 		}
 		acts[""] = func(t *rapid.T) {
 			for _, i := range w.OpenSnaps() {
-				w.CheckSnap(i, 0, "snapshot-isolation")
+				w.CheckSnap(i, scanRate, "snapshot-isolation")
 				scans++
 				if w.SnapNontrivial(i) {
 					ntScans++
